@@ -5,6 +5,7 @@ package c10
 import (
 	"context"
 	"encoding/json"
+	"errors"
 	"fmt"
 	"os"
 	"os/exec"
@@ -31,7 +32,13 @@ func TestMain(m *testing.M) {
 
 // Case is one session brought into State, then ended by Event.
 //
-// State: queued-s2c (40 DATA frames of the server wait in the relay behind the client's
+// State: backedup-s2c-upload (as backedup-s2c, and the client, which does not read, then
+// uploads a DATA frame: the relay's client-to-server reader wants to return credit for it
+// and waits for the write lock that the stuck server-to-client writer holds - now neither
+// reader is in a position to see anything; only closing and server-close apply) |
+// dialing (the upstream has accepted the TCP connection but does not answer the TLS
+// handshake: Config.Proxy is still inside its dial; only closing and client-close apply) |
+// queued-s2c (40 DATA frames of the server wait in the relay behind the client's
 // zero stream window: more than the relay's output channel holds) | idle-no-alpn (as idle, but the upstream completed the TLS handshake without
 // selecting an application protocol; whatever the relay makes of that, both connections
 // must be released when Proxy returns) | handshake (the relay has dialled the server; the client has not sent its
@@ -67,7 +74,7 @@ type Case struct {
 var collect = os.Getenv("C10_COLLECT") != ""
 
 var (
-	states   = []string{"handshake", "idle-no-alpn", "queued-s2c", "idle", "mid", "blocked-c2s", "blocked-s2c", "backedup-c2s", "backedup-s2c"}
+	states   = []string{"dialing", "handshake", "idle-no-alpn", "queued-s2c", "idle", "mid", "blocked-c2s", "blocked-s2c", "backedup-c2s", "backedup-s2c", "backedup-s2c-upload"}
 	events   = []string{"bad-preface", "closing-first", "server-close-slow-client", "server-close-slow-client-credit", "server-close-slow-client-credit-close", "client-close", "server-close", "server-reset", "client-write-fail", "client-ack-write-fail", "client-proto-error", "server-proto-error", "closing"}
 	variants = []string{"continuation-without-headers", "bad-padding", "settings-bad-length", "max-frame-size-zero"}
 
@@ -96,7 +103,13 @@ func valid(c Case) bool {
 	if c.State == "idle-no-alpn" && c.Event != "client-close" && c.Event != "server-close" && c.Event != "closing" {
 		return false // three ways to end it are enough for this variant of idle
 	}
-	if (c.State == "handshake") != (c.Event == "bad-preface" || c.Event == "closing-first" || (c.State == "handshake" && c.Event == "client-close")) {
+	if c.State == "dialing" {
+		return c.Event == "closing" || c.Event == "client-close"
+	}
+	if c.State == "backedup-s2c-upload" {
+		return c.Event == "closing" || c.Event == "server-close"
+	}
+	if (c.State == "handshake") != (c.Event == "bad-preface" || c.Event == "closing-first" || (c.State == "handshake" && (c.Event == "client-close" || c.Event == "closing"))) {
 		return false // before the preface only the client can end the session, and only then can the preface be wrong
 	}
 	if c.Event == "client-ack-write-fail" && c.State != "mid" && c.State != "blocked-s2c" {
@@ -123,7 +136,7 @@ func normalise(c Case) Case {
 	if c.Variant == "max-frame-size-zero" {
 		c.Traffic = true // the value only matters once the other side sends DATA toward its author
 	}
-	if c.State == "handshake" {
+	if c.State == "handshake" || c.State == "dialing" {
 		c.Traffic = false // there is no session to send on
 	}
 	return c
@@ -146,7 +159,7 @@ func arrange(c Case, s *h2kit.Session, bound time.Duration) string {
 		sv.SetAutoAck(false)
 	case "backedup-c2s":
 		sInit = wide
-	case "backedup-s2c":
+	case "backedup-s2c", "backedup-s2c-upload":
 		cInit = wide
 	case "mid":
 		cl.SetAutoWU(true)
@@ -211,9 +224,9 @@ func arrange(c Case, s *h2kit.Session, bound time.Duration) string {
 		if !held {
 			return "DATA passed a zero window"
 		}
-	case "backedup-c2s", "backedup-s2c":
+	case "backedup-c2s", "backedup-s2c", "backedup-s2c-upload":
 		S, R := cl, sv
-		if c.State == "backedup-s2c" {
+		if c.State != "backedup-c2s" {
 			S, R = sv, cl
 		}
 		R.WriteWindowUpdate(0, 1<<30)
@@ -224,6 +237,11 @@ func arrange(c Case, s *h2kit.Session, bound time.Duration) string {
 		R.Pause()
 		// until the relay stops returning credit (its reader is parked), at most 32 MiB
 		S.SendBulk(1, 16384, 32<<20, 300*time.Millisecond)
+		if c.State == "backedup-s2c-upload" {
+			cl.WriteData(1, kit.Bytes(3, 1000), -1, false)
+			kit.Eventually(bound, func() bool { return s.Duplex.Pending() == 0 })
+			time.Sleep(50 * time.Millisecond) // (sets the scene: the relay has read the frame)
+		}
 	}
 	return ""
 }
@@ -264,7 +282,7 @@ func runOnce(c Case, bound time.Duration) (v kit.Verdict, slow bool) {
 	c = normalise(c)
 	base := kit.GoroutinesMatching(h2RE)
 	o := h2kit.Options{Factories: h2kit.Factories(c.Procs), Bound: bound}
-	if c.State == "backedup-s2c" {
+	if c.State == "backedup-s2c" || c.State == "backedup-s2c-upload" {
 		o.OutLimit = 32 << 10
 	}
 	if c.State == "backedup-c2s" {
@@ -272,6 +290,7 @@ func runOnce(c Case, bound time.Duration) (v kit.Verdict, slow bool) {
 	}
 	o.PreClosed = c.Event == "closing-first"
 	o.NoALPN = c.State == "idle-no-alpn"
+	o.NoHandshake = c.State == "dialing"
 	// A connection that is merely dropped is closed by its finalizer at some later
 	// garbage collection; that is not "closed when Proxy returns". Collections are
 	// held off until the upstream connection has been looked at.
@@ -285,6 +304,13 @@ func runOnce(c Case, bound time.Duration) (v kit.Verdict, slow bool) {
 	defer restoreGC()
 	s, err := h2kit.Open(o)
 	if err != nil {
+		if c.Event == "closing-first" && errors.Is(err, h2kit.ErrProxyReturned) {
+			// shut down before it started: returning without ever connecting is an answer too
+			if !kit.Eventually(bound, func() bool { return kit.GoroutinesMatching(h2RE) <= base }) {
+				return kit.Failf("C10/goroutines/"+cell(c)+"/session-goroutines-remain", "Config.Proxy returned at once (%v) but %d goroutine(s) of the session remain: %s", err, kit.GoroutinesMatching(h2RE)-base, blockedAt()), true
+			}
+			return nil, false
+		}
 		return kit.Failf("C10/setup/"+c.State+"/relay-did-not-connect", "%v", err), true
 	}
 	defer s.Teardown(bound)
@@ -292,7 +318,7 @@ func runOnce(c Case, bound time.Duration) (v kit.Verdict, slow bool) {
 	// right (for instance when it does not like what the upstream negotiated), but the
 	// connections must be released all the same.
 	early, earlyErr := false, error(nil)
-	if c.State == "handshake" {
+	if c.State == "handshake" || c.State == "dialing" {
 		// nothing to arrange: Open has seen the relay's upstream connection
 	} else if msg := arrange(c, s, bound); msg != "" {
 		if early, earlyErr = s.ProxyReturned(0); !early {
